@@ -59,6 +59,8 @@ def op_fit(ctx, stage, comp, like, **kw):
         import esr.fitting.test_all_Fisher as m
     elif stage == 'match':
         import esr.fitting.match as m
+    elif stage == 'plot':
+        import esr.fitting.plot as m
     elif stage == 'combine':
         import esr.fitting.combine_DL as m
     else:
@@ -178,6 +180,13 @@ def op_subs_templates(ctx, max_param, ints):
             d = {all_a[common[i]]: all_a[i] for i in range(k)}
             if any(kk != vv for kk, vv in d.items()):
                 out.append(str(d))
+    # the same multi-key maps with the keys written in the opposite order (dict order in the simplifier depends on set
+    # iteration, i.e. on the hash seed)
+    import re as _re
+    for t in list(out):
+        if t.startswith('{') and t.count(': ') >= 2 and '(' not in t:
+            items = t[1:-1].split(', ')
+            out.append('{' + ', '.join(reversed(items)) + '}')
     seen, uniq = set(), []
     for t in out:
         if t not in seen and 'zoo' not in t:
